@@ -20,6 +20,7 @@ Inductive merr : Type :=
 | MECodec           (* the user Codec returned an error *)
 | MENoCodec         (* "not a registered message and no codec configured" *)
 | MERecovered       (* panic inside a message writer, recovered by SerializeRemotingMessage into an error *)
+| MEBadRef          (* the ActorRef factory (actor.NewRef) rejected an (address, path) pair *)
 | MECrash           (* panic that nothing recovers: the process crashes *)
 | MEFuel.           (* decoder fuel exhausted (model artefact; proved unreachable) *)
 
